@@ -238,6 +238,12 @@ var scenarios = []scenario{
 		p.StartWorkers()
 		return []*call{queryCall(p, "a", "q1"), queryCall(p, "b", "q1"), queryCall(p, "c", "q2")}, nil, p.Close
 	}},
+	{"S9 three callers, same instant query, concurrency 2, server may fail", func(srv *server) ([]*call, []func(), func()) {
+		srv.faults = true
+		p := newProm(srv, "p", 2)
+		p.StartWorkers()
+		return []*call{queryCall(p, "a", "q1"), queryCall(p, "b", "q1"), queryCall(p, "c", "q1")}, nil, p.Close
+	}},
 	{"S6 two callers same query + cache gc in the background + Close", func(srv *server) ([]*call, []func(), func()) {
 		p := newProm(srv, "p", 2)
 		p.StartWorkers()
@@ -384,7 +390,7 @@ func body(c *explore.Chooser, si int) *explore.Case {
 // bounds per scenario: {quick, thorough}. For S1 S2 S5 S6 S7 the bound counts preemptions (choices among
 // runnable threads when the running one blocks are free); S3 S4 S8 have 8-10 threads, there every departure
 // from the default schedule counts (costFree).
-var bounds = map[string][2]int{"S1": {1, 2}, "S2": {2, 3}, "S3": {2, 3}, "S4": {2, 3}, "S5": {2, 2}, "S6": {2, 3}, "S7": {2, 3}, "S8": {2, 3}}
+var bounds = map[string][2]int{"S1": {1, 2}, "S2": {2, 3}, "S3": {2, 3}, "S4": {2, 3}, "S5": {2, 2}, "S6": {2, 3}, "S7": {2, 3}, "S8": {2, 3}, "S9": {2, 3}}
 var costFree = map[string]bool{"S3": true, "S4": true, "S8": true}
 
 func spaces() (out []*explore.Space) {
@@ -411,7 +417,7 @@ func spaces() (out []*explore.Space) {
 func main() {
 	explore.Main(&explore.Config{
 		Property: "C14", Level: "model_checking",
-		Rule: "8 scenarios (three callers one instant query; two+one callers with concurrency 1; two callers one sliced range query; config/flags/metadata twice each; server answers ok/503/400 by choice; background cache gc; two upstreams sharing a cache; two range queries whose windows share an aligned slice) run on the real promapi client whose sync primitives, channels and go statements are mechanically replaced by scheduler shims; every schedule within a per-scenario bound is executed, with happens-before state caching: S1 S2 S5 S6 S7 bound the preemptions (quick 1-2, thorough 2-3), S3 S4 S8 (8-10 threads) bound all departures from the default schedule (quick 2, thorough 3); monitors on every request: no identical requests in flight, in-flight <= concurrency, no repeat within the cache lifetime, equal results for equal questions, no deadlock, Close returns, every goroutine finishes",
+		Rule: "9 scenarios (three callers one instant query, also with a failing server; two+one callers with concurrency 1; two callers one sliced range query; config/flags/metadata twice each; server answers ok/503/400 by choice; background cache gc; two upstreams sharing a cache; two range queries whose windows share an aligned slice) run on the real promapi client whose sync primitives, channels and go statements are mechanically replaced by scheduler shims; every schedule within a per-scenario bound is executed, with happens-before state caching: S1 S2 S5 S6 S7 bound the preemptions (quick 1-2, thorough 2-3), S3 S4 S8 (8-10 threads) bound all departures from the default schedule (quick 2, thorough 3); monitors on every request: no identical requests in flight, in-flight <= concurrency, no repeat within the cache lifetime, equal results for equal questions, no deadlock, Close returns, every goroutine finishes",
 		Assumptions: []string{
 			"scheduling points: mutex/rwmutex lock, cond wait/signal/broadcast, waitgroup wait, channel send/recv/close, thread start, context cancel, HTTP request arrival and response; pure releases are not points",
 			"unsynchronised accesses are outside this engine: the same scenarios run free under -race in the supplementary pass",
